@@ -66,7 +66,7 @@ def gen_cases(unit, ctx):
                 yield {"notes": [list(n) for n in ns], "key": key, "bar": False, "iv": iv}
     else:
         for key in (None, "C", "F#", "Cb", "Eb"):
-            for ns in ([al[0]], [al[4]], [al[8], al[9]], [al[1], al[16]]):
+            for ns in ([], [al[0]], [al[4]], [al[8], al[9]], [al[1], al[16]]):     # incl. a bar of rests only
                 for seqkey in (None, "G"):
                     yield {"notes": [list(n) for n in ns], "key": seqkey, "bar": True, "barkey": key, "iv": iv}
 
